@@ -70,7 +70,7 @@ impl CharacterData {
     // two clauses of compat_post, proved in unit chardata
     #[verifier::external_body]
     pub fn check_version_compatibility(&self, data_spec: &CharacterDataSpec, target_version: AutosarVersion) -> (r: (bool, u32))
-        ensures r.0 == valid(*self, *data_spec, target_version as u32)
+        ensures r.0 == valid(*self, *data_spec, target_version as u32), r.0 ==> r.1 & (target_version as u32) != 0
     { unimplemented!() }
     #[verifier::external_body]
     pub fn to_string(&self) -> (r: String) { unimplemented!() }
@@ -101,6 +101,14 @@ pub fn vx_unnamed_mask(t: ElementType) -> (r: u32) { unimplemented!() }
 #[verifier::external_body]
 pub fn vx_compat_error() -> (r: CompatibilityError) { unimplemented!() }
 
+pub open spec fn single_bit(v: u32) -> bool { v != 0 && v & sub(v, 1) == 0 }
+pub proof fn lemma_and_mask(a: u32, b: u32, v: u32)
+    ensures (single_bit(v) && a & v != 0 && b & v != 0) ==> (a & b) & v != 0, single_bit(v) ==> u32::MAX & v != 0
+{
+    assert((v != 0 && v & sub(v, 1) == 0 && a & v != 0 && b & v != 0) ==> (a & b) & v != 0) by(bit_vector);
+    assert(v != 0 ==> 0xffff_ffffu32 & v != 0) by(bit_vector);
+}
+%(single_bit_lemma)s
 // ---- the statement
 pub open spec fn type_listed(pt: int, n: ElementName, t: ElementType) -> bool {
     exists|v0: u32| (#[trigger] find_from(pt, 0, n, v0)) matches Some((d, _)) && t == et_of(d)
@@ -176,6 +184,7 @@ pub proof fn axiom_crosstype(pt: int, n: ElementName, t_own: ElementType, t_new:
 '''
 
 R45 = [
+    (r'overall_version_mask &= (\w+);', lambda m: 'let ghost vx_om = overall_version_mask; overall_version_mask &= %s; proof { lemma_and_mask(vx_om, %s, target_version as u32); }' % (m.group(1), m.group(1)), 'ghost'),
     (r'CompatibilityError::\w+ \{[^{}]*\}', lambda m: 'vx_compat_error()', 'R45'),
     (r'let version_mask = autosar_data_specification::expand_version_mask\(u32::MAX\)\s*\.iter\(\)\s*\.filter\(\|ver\| !elemtype_new\.is_named_in_version\(\*\*ver\)\)\s*\.fold\(0u32, \|mask, ver\| mask \| \*ver as u32\);',
      lambda m: 'let version_mask = vx_unnamed_mask(elemtype_new);', 'R45'),
@@ -200,7 +209,10 @@ def make_unit(repo_dir):
     lookups.check_decls(repo_dir)
     sz = lookups.table_sizes(repo_dir)
     lspec = lookups.TYPES % dict(version_enum='', STATICS='', REFERENCE_TYPE_IDX=sz['REFERENCE_TYPE_IDX'], **{k: v[1] for k, v in sz.items() if isinstance(v, tuple)})
-    spec = lspec + TYPES % dict(version_enum=parser_funnel.version_enum(repo_dir))
+    ve = parser_funnel.version_enum(repo_dir)
+    arms = ''.join('        AutosarVersion::%s => { assert(single_bit(%su32)) by(bit_vector); }\n' % (n, h) for n, h in re.findall(r'(\w+)\s*=\s*(0x[0-9a-fA-F]+)', ve))
+    sb = 'pub proof fn lemma_single_bit(v: AutosarVersion) ensures single_bit(v as u32) {\n    match v {\n%s    }\n}\n' % arms
+    spec = lspec + TYPES % dict(version_enum=ve, single_bit_lemma=sb)
     lf = {f.label: f for f in lookups.fns(sz)}
     fns = [
         FnSpec('recalc_element_type', F, impl=IMPL_E, ret='r', requires=['type_consistent(*self)'],
@@ -218,11 +230,12 @@ def make_unit(repo_dir):
 
     def S(k):
         return 'forall|i: int| 0 <= i < %s ==> child_compat(*self, #[trigger] sub_elems(*self)[i], *file, %s)' % (k, TV)
-    base = ['wf_tables()', 'subtree_consistent(*self)', 'elemtype_new == new_type(*self, %s)' % TV, 'elemtype_new.typ < n_dt()',
+    base = ['(%s) ==> overall_version_mask & (%s) != 0' % (E0, TV), 'single_bit(%s)' % TV, 'wf_tables()', 'subtree_consistent(*self)', 'elemtype_new == new_type(*self, %s)' % TV, 'elemtype_new.typ < n_dt()',
             'parent_of(*self) matches Some(p) ==> type_listed(type_of(p).typ as int, name_of(*self), elemtype_new)']
     fns.append(FnSpec('check_version_compatibility', F, impl=IMPL_E, ret='r', body_sub=R45, sig_sub=[(r'pub\(crate\) fn', 'pub fn')],
                requires=['subtree_consistent(*self)'],
-               ensures=['r.0@.len() == 0 <==> tree_compat(*self, *file, %s)' % TV],
+               ensures=['r.0@.len() == 0 <==> tree_compat(*self, *file, %s)' % TV,
+                        'r.0@.len() == 0 ==> r.1 & (%s) != 0' % TV],
                decreases='height(*self)',
                loops={0: dict(invariant=base + ['vx_attributes <= element.attributes.len()', 'element.attributes@ == attrs_of_elem(*self)', 'element.content@ == content_of(*self)',
                                                 '(%s) <==> ((%s) && (%s))' % (E0, N, A('vx_attributes'))], decreases='element.attributes.len() - vx_attributes'),
@@ -231,7 +244,7 @@ def make_unit(repo_dir):
                                                 '(%s) <==> ((%s) && (%s) && (%s))' % (E0, N, A('attrs_of_elem(*self).len()'), C('vx_content'))], decreases='element.content.len() - vx_content'),
                       2: dict(invariant=base + ['vx_si <= vx_subs.len()', 'vx_subs@ == sub_elems(*self)',
                                                 '(%s) <==> ((%s) && (%s) && (%s) && (%s))' % (E0, N, A('attrs_of_elem(*self).len()'), C('content_of(*self).len()'), S('vx_si'))], decreases='vx_subs.len() - vx_si')},
-               proofs=[dict(at='body_start', text='proof { axiom_tables(); assert forall|a: u32, b: u32| #[trigger] (a & b) == b & a by { assert(a & b == b & a) by(bit_vector); } }'),
+               proofs=[dict(at='body_start', text='proof { axiom_tables(); lemma_single_bit(target_version); lemma_and_mask(0, 0, target_version as u32); assert forall|a: u32, b: u32| #[trigger] (a & b) == b & a by { assert(a & b == b & a) by(bit_vector); } }'),
                        dict(after=r'vx_attributes \+= 1;', indent=True, text='''let ghost n0 = compat_errors@.len();
 proof { assert(*attribute == attrs_of_elem(*self)[vx_attributes - 1]); }'''),
                        dict(after=r'\}\) = elemtype_new\.find_attribute_spec\(attribute\.attrname\)\s*\n\s*\{', indent=True, text='''let ghost k0: int = choose|k: int| attr_at(elemtype_new.typ as int, k, attribute.attrname) && version_mask == t_ver(t_dt(elemtype_new.typ as int).attributes_ver + k) && *value_spec == t_cd(attrs_of(elemtype_new.typ as int)[k].1 as int);
